@@ -188,6 +188,20 @@ def main(argv=None):
 
     if args.replay:
         rp = json.load(open(args.replay))
+        if rp.get('signature', '').endswith('|process|cross_history_state'):
+            dt = rp['detail']
+            ra = run_replay(check, rp['case'], overlay, scratch, conf, extra=extra_spec, timeout_s=900, prior=dt['prior_A_run_indices'],
+                            prior_seed=rp.get('verif_seed', 0), prior_tier=rp.get('tier', 'quick'))
+            rb = run_replay(check, rp['case'], overlay, scratch, conf, extra=extra_spec, timeout_s=900, prior=dt['prior_B_run_indices'],
+                            prior_seed=rp.get('verif_seed', 0), prior_tier=rp.get('tier', 'quick'))
+            print('digest after prior histories A: %s (recorded %s); after B: %s (recorded %s)' % (
+                ra.get('digest'), dt['digest_after_prior_A'], rb.get('digest'), dt['digest_after_prior_B']))
+            if ra.get('digest') and rb.get('digest') and ra.get('digest') != rb.get('digest'):
+                print('reproduced: the same history behaves differently after different earlier histories in the same interpreter')
+                print('VIOLATION property=%s replay=%s' % (check, args.replay))
+                return 1
+            print('replay did not reproduce a dependence on earlier histories')
+            return 0
         r = run_replay(check, rp['case'], overlay, scratch, conf, extra=extra_spec, timeout_s=900, prior=rp.get('prior_run_indices'),
                        prior_seed=rp.get('verif_seed', 0), prior_tier=rp.get('tier', 'quick'))
         sigs = [v['signature'] for v in r.get('violations', [])]
@@ -353,9 +367,10 @@ def main(argv=None):
     # determinism re-check: a sample of run indices again in fresh interpreters with another hash seed
     # and another worker count; digests must be identical.
     det = {'n': 0, 'mismatches': 0}
+    mismatched = []
     if agg['runs'] > 0:
         all_idx = sorted(int(k) for k in digests)
-        want = 48 if args.tier == 'quick' else 400
+        want = 96 if args.tier == 'quick' else 400
         stepk = max(1, len(all_idx) // want)
         sample_idx = all_idx[::stepk][:want]
         W2 = 3 if W != 3 else 2
@@ -375,11 +390,47 @@ def main(argv=None):
                 harness_errors.append({'run': None, 'error': 'determinism re-check worker failed'})
                 continue
             r = json.load(open(p._spec['out']))
+            order2 = p._spec['indices']
             for k, dg in r['digests'].items():
                 det['n'] += 1
                 if digests.get(k) != dg:
                     det['mismatches'] += 1
-                    harness_errors.append({'run': int(k), 'error': 'NONDETERMINISM: digest %s vs %s' % (digests.get(k), dg)})
+                    mismatched.append((int(k), digests.get(k), dg, [j for j in order2[:order2.index(int(k))]]))
+        # A digest that differs between two interpreters can mean a non-deterministic harness -- or a library whose behaviour
+        # depends on what earlier, unrelated histories did in the same process (static buffers, class-level state, registries).
+        # Tell them apart: replay the run in fresh interpreters after each of the two sequences of prior histories; if each
+        # replay reproduces "its" digest, the harness is deterministic and the dependence on process history is the library's.
+        for (ri, d_orig, d_re, prior_re) in mismatched[:3]:
+            b = (ri - args.start) % nb
+            prior_orig = list(range(args.start + b, ri, nb))
+            gen_out = os.path.join(scratch, 'gen-x-%d.json' % ri)
+            code = ('import sys, json; sys.path.insert(0, %r); from simlib.core import engine_for, run_seed; '
+                    'from simlib.prng import Rng; e = engine_for(%r); '
+                    'c = e.generate(%r, Rng(run_seed(%d, %r, %d)), %r, %d); json.dump(c, open(%r, "w"))'
+                    % (VERIF, check, check, seed, check, ri, args.tier, ri, gen_out))
+            subprocess.run([PY, '-c', code], env=worker_env(overlay), timeout=120)
+            confirmed = False
+            if os.path.exists(gen_out):
+                case_x = json.load(open(gen_out))
+                ra = run_replay(check, case_x, overlay, scratch, conf, extra=extra_spec, timeout_s=900, prior=prior_orig, prior_seed=seed, prior_tier=args.tier)
+                rb = run_replay(check, case_x, overlay, scratch, conf, extra=extra_spec, timeout_s=900, prior=prior_re, prior_seed=seed, prior_tier=args.tier)
+                confirmed = ra.get('digest') == d_orig and rb.get('digest') == d_re
+            if confirmed:
+                sig = '%s|process|cross_history_state' % check
+                if sig not in viol:
+                    viol[sig] = {'signature': sig, 'run_index': ri, 'run_seed': run_seed(seed, check, ri), 'case': case_x,
+                                 'detail': {'what': 'the same history gives different step logs depending on which earlier, unrelated histories ran in the same '
+                                                    'interpreter; both variants replay deterministically in fresh interpreters',
+                                            'digest_after_prior_A': d_orig, 'prior_A_run_indices': prior_orig,
+                                            'digest_after_prior_B': d_re, 'prior_B_run_indices': prior_re},
+                                 'step': None, 'digest': d_orig, 'original_ops': len(case_x.get('ops', [])), 'minimised_ops': len(case_x.get('ops', [])),
+                                 'minimiser_executions': 0, 'log': [], 'process_level': True, 'prior_indices': prior_orig}
+                vcount[sig] = vcount.get(sig, 0) + 1
+            else:
+                harness_errors.append({'run': ri, 'error': 'NONDETERMINISM: digest %s vs %s' % (d_orig, d_re)})
+        for (ri, d_orig, d_re, _) in mismatched[3:]:
+            if not any(sg.endswith('|process|cross_history_state') for sg in viol):
+                harness_errors.append({'run': ri, 'error': 'NONDETERMINISM: digest %s vs %s' % (d_orig, d_re)})
 
     # stub fidelity (C08, thorough tier): the same workloads against the REAL libgomp build of the working tree under
     # several OMP_NUM_THREADS / OMP_DYNAMIC settings; per-run result digests must equal the single-thread ones.
@@ -464,6 +515,8 @@ def main(argv=None):
                'original_ops': v['original_ops'], 'minimised_ops': v['minimised_ops'],
                'minimiser_executions': v['minimiser_executions'], 'count_this_run': vcount.get(sig, 1)}
         if v.get('process_level'):
+            if sig.endswith('|process|cross_history_state'):
+                rec['prior_run_indices'] = v.get('prior_indices')
             with open(path, 'w') as f:
                 json.dump(rec, f, indent=1)
             out_lines.append('VIOLATION property=%s replay=%s' % (check, path))
